@@ -85,7 +85,6 @@ Definition c_rbrace := 125. Definition c_bar := 124. Definition c_dot := 46. Def
 Definition c_caret := 94. Definition c_dollar := 36. Definition c_qmark := 63. Definition c_star := 42.
 Definition c_plus := 43. Definition c_comma := 44. Definition c_colon := 58.
 
-Definition is_digit (c : N) : bool := (48 <=? c) && (c <=? 57).
 Definition is_quant (c : N) : bool := (c =? c_lbrace) || (c =? c_qmark) || (c =? c_star) || (c =? c_plus).
 
 Section Compiler.
